@@ -284,7 +284,57 @@ def check_mixed(case, acc):
     acc.tag("trees_mixing_separators")
 
 
+FOLD_NAMES = ["\u0131l\u0131ca", "Ga\u017fthaus", "\u00b5m", "stra\u00dfe", "\u212a", "\ufb01le", "\u0130zmir", "\u0149", "plain"]
+
+
+def check_fold(case, acc):
+    """Wildcard-free paths under ignorecase, spelled in other cases than the names: whatever case folding the library uses,
+    strict glob agrees with get (same node, same error class) - the statement says so without naming a folding.
+    KF-C08-2: the pinned code folds with str.upper() in get and with re.IGNORECASE in glob; where those two foldings
+    themselves differ (sharp s, ligatures, the Kelvin sign ...) get and glob disagree."""
+    import re
+
+    cls = rr.make_class("/", "name")
+    top = cls("top")
+    kids = []
+    for name in case["names"]:
+        kid = cls(name)
+        kid.parent = top
+        cls("pool").parent = kid
+        kids.append(kid)
+    labels = forest.Labels([top] + kids + [k.children[0] for k in kids])
+    spellings = []
+    for name in case["names"]:
+        for variant in (name.upper(), name.lower(), name.swapcase(), name.title(), name.casefold()):
+            if variant != name and variant not in spellings and "/" not in variant and not rr.is_wild(variant) and variant not in (".", "..", ""):
+                spellings.append(variant)
+    checked = 0
+    for spelled in spellings:
+        for path in (spelled, spelled + "/pool", "/TOP/" + spelled, "/top/" + spelled + "/POOL"):
+            get = run(Resolver("name", ignorecase=True).get, top, path)
+            strict = run(Resolver("name", ignorecase=True).glob, top, path)
+            relaxed = run(Resolver("name", ignorecase=True, relax=True).glob, top, path)
+            checked += 1
+            if get[0] == "crash" or strict[0] == "crash" or relaxed[0] != "ok":
+                raise Violation("strict-crash", "names %r path %r: get %r, strict glob %r, relaxed glob %r" % (case["names"], path, get[:2], strict[:2], relaxed[:2]))
+            agree = (get[0] == "ok" and strict[0] == "ok" and len(strict[1]) == 1 and strict[1][0] is get[1] and len(relaxed[1]) == 1 and relaxed[1][0] is get[1]) or (get[0] == "error" and strict[0] == "error" and strict[1] == get[1] and relaxed[1] == [])
+            if agree:
+                continue
+            # which children does each of the two pinned foldings select for the spelled component?
+            by_upper = [k for k in kids if k.name.upper() == spelled.upper()]
+            by_regex = [k for k in kids if re.fullmatch(re.escape(spelled), k.name, re.IGNORECASE)]
+            if [id(k) for k in by_upper] != [id(k) for k in by_regex]:
+                acc.known_finding("KF-C08-2", {"kind": "fold", "names": case["names"]})
+                continue
+            raise Violation("glob-vs-get", "names %r, ignorecase, path %r: get gives %s, strict glob %s, relaxed glob %s" % (case["names"], path, labels.label(get[1]) if get[0] == "ok" else get[1], labels.labels(strict[1]) if strict[0] == "ok" else strict[1], labels.labels(relaxed[1])))
+    acc.evaluations += max(checked - 1, 0)
+    acc.nontrivial(checked > 0)
+    acc.tag("other_case_spellings_get_vs_glob", checked)
+
+
 def check_case(case, acc):
+    if case.get("kind") == "fold":
+        return check_fold(case, acc)
     if case.get("kind") == "mixed":
         return check_mixed(case, acc)
     if case.get("kind") == "reentrant":
@@ -448,7 +498,7 @@ def plan(tier, seed):
     max_nodes, maxlen = (4, 3) if tier == "quick" else (5, 4)
     tasks = [{"engine": "enum", "max_nodes": max_nodes, "maxlen": maxlen, "index": i, "count": nshards * 2} for i in range(nshards * 2)]
     tasks += [{"engine": "hyp", "examples": examples, "seed": seed * 1000 + i} for i in range(nshards)]
-    tasks += [{"engine": "reentrant"}, {"engine": "mixed"}, {"engine": "regex"}]
+    tasks += [{"engine": "reentrant"}, {"engine": "mixed"}, {"engine": "regex"}, {"engine": "fold"}]
     tasks += [{"engine": "special", "seed": seed * 1000 + 700 + i, "examples": 8 if tier == "quick" else 60} for i in range(4)]
     if tier == "thorough":
         # coverage-guided supplement: 16 libFuzzer campaigns on the same strategy + oracle (skipped if atheris is unavailable)
@@ -463,6 +513,9 @@ def run_task(task, acc):
         return run_fuzz_task(PROP_ID, task, acc)
     if task["engine"] == "regex":
         return acc.run_enum(check_case, _regex_cases())
+    if task["engine"] == "fold":
+        cases = [{"kind": "fold", "names": [n]} for n in FOLD_NAMES] + [{"kind": "fold", "names": [a, b]} for a in FOLD_NAMES[:4] for b in FOLD_NAMES[4:]]
+        return acc.run_enum(check_case, cases)
     if task["engine"] == "mixed":
         for seps in (["/", ":"], [":", "/"], ["|", "::", "/"], ["::", "-"]):
             for ic in (False, True):
